@@ -149,7 +149,11 @@ func runExifProps(c *Ctx, which string) error {
 					for _, m := range mutate(c, epInput{Data: b}, 3) {
 						addEx("parse", m.Data, "", "malformed")
 						addEx(fmt.Sprintf("tiffbuf:%d:%d:8", order, fi), m.Data, "", "malformed")
-						addEx(fmt.Sprintf("jpegifd:%d:%d:%d", order, fi, len(m.Data)-c.Rng.Intn(3)), m.Data, "", "malformed")
+						jl := len(m.Data) - c.Rng.Intn(3)
+						if jl < 0 {
+							jl = 0
+						}
+						addEx(fmt.Sprintf("jpegifd:%d:%d:%d", order, fi, jl), m.Data, "", "malformed")
 					}
 				}
 			case "C06":
